@@ -197,6 +197,13 @@ def run(ctx):
     if ctx.thorough():
         cases += [("1FTJ-Chain-A", C.test_pdb_text("1FTJ-Chain-A"), []), ("3SGB", C.test_pdb_text("3SGB"), []), ("4DFR", C.test_pdb_text("4DFR"), []),
                   ("conf-alt-AB", C.test_pdb_text("conf-alt-AB"), [])]
+    # the window of pKa values inside which pairs are examined, given explicitly (the shipped values, and a narrower one):
+    # a pair whose swapped state leaves the window is undone like any other
+    from . import c02 as _c02
+    for tag_, ov_ in (("window 0-10", {"min_pka": 0.0, "max_pka": 10.0}), ("window 2-9", {"min_pka": 2.0, "max_pka": 9.0}))[: (2 if ctx.thorough() else 1)]:
+        cases.append((f"1HPX [{tag_}]", C.test_pdb_text("1HPX"), ["-p", _c02.param_file(ov_, "c15_" + tag_.replace(" ", "_"))]))
+        if ctx.thorough():
+            cases.append((f"1FTJ-Chain-A [{tag_}]", C.test_pdb_text("1FTJ-Chain-A"), ["-p", _c02.param_file(ov_, "c15_" + tag_.replace(" ", "_"))]))
     # the same inputs with the display of alternative states requested: values may differ then, marks and stars may not
     cases += [(c_[0] + " -d", c_[1], list(c_[2]) + ["-d"]) + tuple(c_[3:]) for c_ in cases[:1] + coupled_constructs(ctx)[:2]]
     recs, metas, runs = runbank.run_and_record(ctx, cases, keep_runs=True)
